@@ -7,3 +7,4 @@ for c in "$@"; do
   echo "== $c exit=$st"; echo "$out" | grep -E "VIOLATION|clause=|HARNESS|^\[" | head -8
 done
 git -C /repo checkout -- .
+(cd /verif/harness && CARGO_NET_OFFLINE=true cargo build -q --release 2>/dev/null; CARGO_NET_OFFLINE=true cargo build -q --profile relassert 2>/dev/null)  # never leave a binary built from the changed tree behind
